@@ -208,7 +208,17 @@ def sample_oracle(table_extra=None):
             return TOP
         items = heap_get(interp, v.vid)
         return It([HRef(v.vid, i) for i in range(min(args[2], len(items)))])
-    t = {"rand::seq::SliceRandom::choose": choose, "rand::seq::SliceRandom::choose_multiple": choose_multiple}
+    def index_sample(interp, env, f, args):
+        # `rand::seq::index::sample(rng, length, amount)`: `amount` distinct indices below `length` (what choose_multiple maps
+        # over); rand panics when amount > length
+        ln, am = args[1], args[2]
+        if not (isinstance(ln, int) and isinstance(am, int)):
+            return TOP
+        if am > ln:
+            return "DIVERGE"
+        from collmodel import new_vec
+        return new_vec(interp, list(range(am)))
+    t = {"rand::seq::SliceRandom::choose": choose, "rand::seq::SliceRandom::choose_multiple": choose_multiple, "rand::seq::index::sample": index_sample}
     t.update(table_extra or {})
     return t
 
